@@ -69,6 +69,7 @@ class Registry:
         self.sym_fields = {}
         self.inline_loops = {}      # addr -> loops spec for inlined helpers with loops
         self.lemma_names = set()
+        self.record_classes = {}    # "module:Class" -> shape name: instances are symbolic records (Boogie heap)
         self.assume_all = False     # while set, contracts are registered for call sites only (proved elsewhere)
         self.ctor_inline_limit = 400
 
@@ -115,6 +116,9 @@ class Registry:
             t = t.args[3]       # a lemma applied to every index of a range
         if not (isinstance(t, _ast.Call) and isinstance(t.func, _ast.Name) and t.func.id in self.lemma_names):
             raise Unsupported("hint is not an application of a registered lemma: " + clause)
+
+    def record_class(self, qual, shape):
+        self.record_classes[qual] = shape
 
     def mark_inline(self, *addrs):
         self.inline.update(addrs)
@@ -319,6 +323,8 @@ class Registry:
 
     def sym_store(self, ex, state, ref, attr, v, guard=None):
         typ = self.sym_field_type(ref.shape, attr)
+        if typ in ("any", "func") or typ.startswith("cb:"):
+            return      # opaque field: reads yield an unknown value, writes are not tracked
         opt = typ.startswith("opt:")
         inner = typ[4:] if opt else typ
 
@@ -350,6 +356,8 @@ def _sym_sort(typ):
         return z3.StringSort()
     if typ.startswith("sym:"):
         return z3.IntSort()
+    if typ.startswith("seq:"):
+        return z3.SeqSort(_sym_sort(typ[4:]))
     if typ == "dyn":
         from . import pyval
         return pyval.PyVal
